@@ -27,3 +27,4 @@ func verifBoundSelectDefaults(n int)
 func verifBoundTryFailures(n int)
 func verifPendingAfterFuncs() int
 func verifCondWaiters(c *sync.Cond) int
+func verifBefore(model string, f func())
